@@ -383,6 +383,25 @@ func c13Bytes(c *enumx.Ctx) {
 			checkDecodeTotal(c, func() string { return fmt.Sprintf("rule#%d[:%d]", ri, n) }, r[:n])
 		}
 	}
+	// HISTORY: the whole rule first (twice), then its prefixes from the longest down, the whole rule again in between -
+	// one process, one after another: what a decoder remembers of the rules it has seen may not make it accept less
+	// than a rule
+	for ri, r := range rules {
+		if !c.Mine() {
+			continue
+		}
+		ri, r := ri, r
+		for rep := 0; rep < 2; rep++ {
+			checkDecodeTotal(c, func() string { return fmt.Sprintf("rule#%d (whole, before its prefixes)", ri) }, r)
+		}
+		for n := len(r) - 1; n >= hdrSize-4 && n >= 0; n-- {
+			n := n
+			checkDecodeTotal(c, func() string { return fmt.Sprintf("rule#%d[:%d] decoded AFTER the whole rule", ri, n) }, r[:n:n])
+			if n%7 == 0 {
+				checkDecodeTotal(c, func() string { return fmt.Sprintf("rule#%d (whole, between its prefixes)", ri) }, r)
+			}
+		}
+	}
 	// deviation bound 1: each header word replaced by each boundary value
 	for ri, r := range rules {
 		d, _ := decodeWire(r)
@@ -510,6 +529,36 @@ func c13Lines(c *enumx.Ctx) {
 			w := strings.Repeat(unit, (n+len(unit)-1)/len(unit))[:n]
 			for _, line := range []string{w, "-a always,exit " + w, "-a " + w, "-a always,exit -F " + w, "-a always,exit -F uid=" + w, "-a always,exit -F " + w + "=1", "-a always,exit -C " + w, "-a always,exit -S " + w, "-w " + w + " -p wa", "-w /x -p " + w, "-w /x -k " + w, "-D -k " + w, "-" + w} {
 				parse(line)
+			}
+		}
+	}
+	// SHORT values of every byte class in every field whose value is interpreted letter by letter or looked up in a table:
+	// every string of <= 3 units over {r, w, x, a, 0xff, a 2-byte lead alone, a 3-byte rune cut short, a 2-byte rune, a
+	// 3-byte rune} - malformed UTF-8 in the last, the last but one and the first position
+	units := []string{"r", "w", "x", "a", "\xff", "\xc3", "\xe2\x82", "\u00e9", "\u20ac"}
+	var words []string
+	var gen func(cur string, n int)
+	gen = func(cur string, n int) {
+		if n > 0 {
+			words = append(words, cur)
+		}
+		if n == 3 {
+			return
+		}
+		for _, u := range units {
+			gen(cur+u, n+1)
+		}
+	}
+	gen("", 0)
+	for _, f := range []string{"perm", "filetype", "arch", "msgtype", "exit", "success", "uid", "key", "path", "dir", "a0", "obj_type", "exe", "field_compare"} {
+		for _, w := range words {
+			if !c.Mine() {
+				continue
+			}
+			parse("-a always,exit -F " + f + "=" + w)
+			if f == "perm" {
+				parse("-w /x -p " + w)
+				parse("-a always,exit -F path=/x -F perm=" + w + " -k k")
 			}
 		}
 	}
